@@ -429,6 +429,44 @@ static Child SpawnChild(const Engine& e, Tier tier, std::vector<WorkItem> items)
 }
 
 /** Body of a child process: read the work from fd 3, run it, write result lines to fd 4. */
+// Runs of engines with chunk == 1 get their plan as canonical JSON text produced by a forked helper (which generates it from the
+// seed, or parses and re-serialises a replay file): the child's own heap then sees exactly the same allocation sequence whether the
+// plan came from a seed (batch run) or from a file (gate re-run, minimiser, replay). Pointer-order dependent behaviour of the code under
+// test (std::set<T*> iteration, equal-work tie-breaks) would otherwise differ between finding a violation and replaying it.
+static bool CanonicalPlanViaHelper(const Engine& e, Tier tier, uint64_t seed, const char* planfile, const char* outpath)
+{
+    pid_t pid = fork();
+    if (pid < 0) return false;
+    if (pid == 0) {
+        Plan p;
+        if (strcmp(planfile, "-") != 0) {
+            std::ifstream f(planfile);
+            std::stringstream ss;
+            ss << f.rdbuf();
+            std::string err;
+            if (!PlanFromJson(ss.str(), p, err)) _exit(74);
+        } else {
+            p = e.gen(seed, tier);
+            p.prop = e.prop;
+            p.seed = seed;
+        }
+        std::string js = PlanToJson(p);
+        int fd = open(outpath, O_WRONLY | O_CREAT | O_TRUNC, 0600);
+        if (fd < 0) _exit(75);
+        size_t off = 0;
+        while (off < js.size()) {
+            ssize_t w = write(fd, js.data() + off, js.size() - off);
+            if (w <= 0) _exit(75);
+            off += (size_t)w;
+        }
+        close(fd);
+        _exit(0);
+    }
+    int st = 0;
+    while (waitpid(pid, &st, 0) < 0 && errno == EINTR) {}
+    return WIFEXITED(st) && WEXITSTATUS(st) == 0;
+}
+
 static int ChildMain(const std::string& prop, Tier tier, const std::string& errfile)
 {
     const Engine* ep = FindEngine(prop);
@@ -467,13 +505,20 @@ static int ChildMain(const std::string& prop, Tier tier, const std::string& errf
         for (size_t ii = 0; ii < nitems; ++ii) {
             struct { long idx; uint64_t seed; const Plan* plan; bool want_sample; bool verbose; } it{parsed[ii].idx, parsed[ii].seed, nullptr, parsed[ii].want_sample != 0, parsed[ii].verbose != 0};
             Plan explicit_plan;
-            if (strcmp(parsed[ii].planfile, "-") != 0) {
-                std::ifstream f(parsed[ii].planfile);
+            static char canon[300];
+            const bool via_helper = e.chunk == 1 && !getenv("VERIF_NO_PLAN_HELPER");
+            if (via_helper) {
+                snprintf(canon, sizeof canon, "%s/plan%08d.json", g_root_dir.c_str(), (int)getpid());
+                if (!CanonicalPlanViaHelper(e, tier, parsed[ii].seed, parsed[ii].planfile, canon)) _exit(74);
+            }
+            if (via_helper || strcmp(parsed[ii].planfile, "-") != 0) {
+                std::ifstream f(via_helper ? canon : parsed[ii].planfile);
                 std::stringstream ss;
                 ss << f.rdbuf();
                 std::string err;
                 if (!PlanFromJson(ss.str(), explicit_plan, err)) _exit(74);
                 it.plan = &explicit_plan;
+                if (via_helper) unlink(canon);
             }
             g_cur_idx = it.idx;
             Plan gen;
@@ -919,11 +964,16 @@ static int CmdRun(const std::string& prop, Tier tier, uint64_t base_seed, int jo
     auto findings = LoadFindings(g_verif_dir + "/known_findings.txt");
     int unlisted = 0, known = 0, simfault = 0;
     std::set<std::string> seen_cls;
+    int unlisted_classes = 0, known_classes = 0;
     std::vector<std::string> viol_reports;
     for (long vi : viol_idx) {
         const RunOut& r = b.results[vi];
         if (seen_cls.count(r.cls)) continue;
-        if (seen_cls.size() >= 3) break;
+        // at most 3 unlisted classes are gated and reported; classes of known findings have their own allowance, so that they can
+        // never use up the slots of a new violation that shows up in a later run
+        const bool cls_known = b.IsKnown(r);
+        if (cls_known ? known_classes >= 8 : unlisted_classes >= 3) continue;
+        (cls_known ? known_classes : unlisted_classes)++;
         seen_cls.insert(r.cls);
         printf("candidate violation: run=%ld seed=%llu class=%s\n  detail: %s\n", vi, (unsigned long long)r.seed, r.cls.c_str(), r.detail.c_str());
         fflush(stdout);
